@@ -8,7 +8,7 @@ sys.path.insert(0, os.path.dirname(os.path.dirname(os.path.abspath(__file__))))
 import vlib
 
 PID = "C04"
-LEAN_MODULES = ["QbiceVerif.Props.C04", "QbiceVerif.Props.NonVacuity.C04"]
+LEAN_MODULES = ["QbiceVerif.Props.C04", "QbiceVerif.Props.NonVacuity.C04", "QbiceVerif.Props.C04Fair", "QbiceVerif.Props.C04FairLive"]
 DRIVER = "drv_phase"
 HARNESS_BIN = "phase"
 HARNESS_FEATURES = ""
@@ -18,6 +18,16 @@ PARTIAL_ALWAYS = [
     "LTS is about the phase protocol (lock, timestamp, batch), not about deep dependency graphs; that a deep graph "
     "repaired under one snapshot yields the from-scratch values is C01's theorem, and the composition of the two is "
     "not a theorem (the harness oracle judges flat programs here, deep ones in C01/C02).",
+    "progress of a waiting writer: writer_bounded_overtaking (no request enqueued after a queued writer is granted before it) is "
+    "proved over the full phase LTS with the FIFO lock; the explicit bound writer_granted_after_finitely_many_steps (every "
+    "schedule that does not grant the writer has at most waitBound = work of the holders and of the requests in FRONT of it + one "
+    "request per other task events) and the refutation joining_readers_starve_writer (toggle join = the seeded change: for every n a "
+    "run of length >= n with the writer queued and never granted, while waitBound <= 4) are proved over the fair-queue LTS "
+    "Model/PhaseFair (the same Lock operations, tasks abstracted to acquisitions with a finite amount of work), not over the full "
+    "LTS; there too the bound is composed with deadlock-freedom (writer_eventually_granted: at the end of any schedule that does not "
+    "grant the writer something is enabled, and once the others cannot move or the bound is exhausted the writer's grant is enabled); "
+    "the tie between the two LTSs is that they use the very same Lock operations (enqueue / FIFO grantable / grant), not a proved "
+    "simulation; that an enabled grant is eventually taken is the scheduler's fairness (tokio's, the OS's), outside the model.",
 ]
 PARTIAL_ASIS = [
     "snapshot_consistent, snapshot_stable, session_atomic: proved for the repaired order of input_session() "
@@ -29,7 +39,10 @@ PARTIAL_ASIS = [
 ASSUMPTIONS = [
     "tokio::sync::RwLock specification: a FIFO semaphore — a writer needs all permits, permits are handed to waiters in "
     "arrival order inside release/acquire (Cfg.fair = true with eager grants is what the current-thread traces are "
-    "validated against; the safety theorems do not use fairness and hold for the unfair lock too)",
+    "validated against; the safety theorems do not use fairness and hold for the unfair lock too). The progress theorems of "
+    "Props/C04Fair (writer_bounded_overtaking, writer_granted_after_finitely_many_steps) DO use it: tokio documents its RwLock as "
+    "fair / write-preferring with a FIFO queue (a reader that asks while a writer is queued waits behind it); this is taken from "
+    "tokio's documentation, not verified; the harness's overtake oracle tests the composed behaviour (engine + tokio) on every run",
     "AtomicU64 timestamp with SeqCst: fetch_add / load are single events",
     "executor locality (ExecLocal): an executor's value and recorded reads are a function of the inputs it reads; proved "
     "for the harness's expression executors (progExec_local)",
@@ -42,6 +55,12 @@ TRUSTED_EXTRA = [
     "event (its linearisation point is searched inside the call's window); the write batch / staged timestamp write are "
     "trace positions only (their persistence is C07/C08)",
     "cancellation of input_session()/commit() futures (F12) is not modelled here (C05)",
+    "tokio's RwLock fairness (FIFO, write-preferring) is modelled from its documentation; the overtake oracle (sig C04:writer-starved) "
+    "reads the hook trace: a tracked() whose phase:r:req is emitted after an input_session()'s phase:w:req and whose phase:r:acq is "
+    "emitted before that session's phase:w:acq is an overtake; the w:req hook precedes the enqueueing poll, so one overtake per reader "
+    "task per request is legitimate; a violation is more than (reader tasks + 1) overtakes of one request (or 3 full iterations of "
+    "every reader inside one wait), judged in the starvation family only (no seeded yields between hook and poll), multi-thread "
+    "hits must reproduce on two re-runs of the same case (an OS pre-emption between hook and poll is not a defect)",
     "hooks: 21 add-only verif_point!/verif_pause! lines in sync.rs and input_session.rs (labels phase:*); events of reader "
     "release, query return, set_input return and commit return are emitted by the harness itself around the public API calls; "
     "the `req` hooks are emitted before the poll that enqueues the task, so the driver lets a `req` event take effect anywhere "
@@ -54,7 +73,11 @@ RULE = ("flat programs (1-3 inputs, 1-3 derived nodes: constant/read/add/conditi
         "round, 1-4 sessions of 1-3 writes, commit or plain drop, most followed by a check round; 1-3 reader tasks; sometimes a "
         "second writer) x schedule (current-thread runtime with the hook sink as scheduler: seeded 0-3 yields at every pause + "
         "0-3 named gates; multi-thread runtime 2-12 workers; thorough adds all pairs of single placements of 2 reader rounds "
-        "against 2 sessions). Non-trivial: some reader event lies between a session's first opening event and the release of "
+        "against 2 sessions); STARVATION family (24 per shard quick, 120 thorough; 3/4 current-thread, 1/4 multi-thread 2-8 workers): inputs a, b "
+        "(a+b kept at 100) and a+b derived, 2-4 reader tasks looping 6-18 rounds `tracked(); query; hold; query [; hold; query]; drop` "
+        "(hold = 1-3 yields / 0.4-1.2 ms sleep, so snapshots overlap), task 0 does 1-4 such rounds, then 1-2 sessions (commit 60% / plain "
+        "drop 40%) in the middle, then a check round; overtakes per writer request are measured on every case of every family "
+        "(distribution keys overtakes_per_request_*). Non-trivial: some reader event lies between a session's first opening event and the release of "
         "its guard. Distinct: hash of case text + trace.")
 
 KNOWN_SIG = "C04:stale-read:f5-window:model-accepts"
